@@ -47,13 +47,17 @@ instance : PyContains Str Str := ⟨fun sub s => isInfixOf sub s⟩
 @[simp] theorem pyContains_dict {κ ν} [DecidableEq κ] (k : κ) (d : Dict κ ν) : pyContains k d = d.contains k := rfl
 
 /-- `c[k] = v` -/
-class SetItem (C : Type) (K : Type) (V : outParam Type) where
+class SetItem (C : Type) (K : Type) (V : Type) where
   setItem : C → K → V → M C
 export SetItem (setItem)
 instance {κ ν} [DecidableEq κ] : SetItem (Dict κ ν) κ ν := ⟨fun d k v => pure (d.set k v)⟩
 instance {α} : SetItem (List α) Int α :=
   ⟨fun l i v => let j := normIndex i l.length
     if j < 0 ∨ j.toNat ≥ l.length then throw .index else pure (l.set j.toNat v)⟩
+instance (priority := low) {V} [ToVal V] : SetItem Attrs String V := ⟨fun d k v => pure (d.set k (toVal v))⟩
+@[simp] theorem setItem_attrs {V} [ToVal V] (d : Attrs) (k : String) (v : V) :
+    (SetItem.setItem d k v : M Attrs) = .ok (d.set k (toVal v)) := by
+  first | rfl | (unfold SetItem.setItem; rfl)
 @[simp] theorem setItem_dict {κ ν} [DecidableEq κ] (d : Dict κ ν) (k : κ) (v : ν) : setItem d k v = .ok (d.set k v) := rfl
 
 instance : PyCmp Int (Option Val) := ⟨fun a b => match b with | some b => pyLt a b | Option.none => false,
